@@ -111,6 +111,9 @@ class Printer:
         if p.kind in ("get", "set") and type(p.value) is A.FunctionExpression:
             f = p.value
             return p.kind + " " + self.key(p) + "(" + ", ".join(x.name for x in f.params) + ") " + self.stmt(f.body)
+        if type(p.value) is A.FunctionExpression and getattr(p.value, "is_method", False):
+            f = p.value     # method shorthand is a different kind of function (not a constructor): keep the spelling
+            return self.key(p) + "(" + ", ".join(x.name for x in f.params) + ") " + self.stmt(f.body)
         return self.key(p) + ": " + self.expr(p.value)
 
     def stmt(self, n):
